@@ -12,11 +12,18 @@ def run(tier, replay=None):
             vs.append(libcheck.Variant("%s-%s-d%d" % (cxx.cell_name(cell), schema, depth), cell,
                                        ["SBEPP_ENABLE_ASSERTS_WITH_HANDLER", "SCHEMA=" + schema, "BIG=%d" % big,
                                         "DEPTH=%d" % depth], opt="-O1"))
+    # release configuration (no assertions, views without an end pointer): the three iterator classes compile different
+    # operator* / constructor branches under `#if SBEPP_SIZE_CHECKS_ENABLED`
+    for cell in (cells[:1] if tier == "quick" else cells):
+        for schema, big in (("lib_le", 0), ("lib_be", 1)):
+            vs.append(libcheck.Variant("rel-%s-%s-d%d" % (cxx.cell_name(cell), schema, depth), cell,
+                                       ["SBEPP_DISABLE_ASSERTS", "SCHEMA=" + schema, "BIG=%d" % big,
+                                        "DEPTH=%d" % depth], opt="-O1"))
     return lib_run(
         "C12", tier, "c12", "c12_group.cpp", vs,
         {"pairs": "all 16 (numInGroup, blockLength) type pairs over uint8/16/32/64", "group_sizes": [0, 1, 2, 3],
          "wire_block_lengths": [0, 1, 2, 5], "iterator_ops": "++it --it it++ it-- it+=k it-=k it+k k+it it-k, k in -3..3",
-         "depth": depth, "starts": ["begin()", "end()"],
+         "depth": depth, "configurations": "checked (assertion handler) on every cell; release (SBEPP_DISABLE_ASSERTS) on %s" % ("the first cell" if tier == "quick" else "every cell"), "starts": ["begin()", "end()"],
          "per_step_observations": "addressof(*it), it->, field read, it[k] and *(it+k) for every reachable k, (it+k)-k, ==,!=,<,<=,>,>=,- against an iterator at every index",
          "nested": "inner counts over {0,1,2}^n, n<=3; forward steps (pre/post), equality, entry start/size, inner group, front, size_bytes, resize/clear"},
         32,
